@@ -478,6 +478,7 @@ type Contract struct {
 	Pure       bool
 	Opaque     []string // callee keys to treat as opaque even if they have contracts
 	AssumePure []string // call display names assumed to leave the visible heap unchanged
+	Use        map[string][]string // callee method/function name -> the only ensures tags assumed at its call sites
 	Ghost      []string
 	File       string
 	Line       int
@@ -772,6 +773,18 @@ func (cs *ContractSet) LoadContractFile(path, pkgName string, trusted bool) erro
 				// calls with these display names (function values, uncontracted callees) are assumed
 				// not to modify any heap location visible to this function (listed assumption)
 				cur.AssumePure = append(cur.AssumePure, strings.Fields(rest)...)
+			case "use":
+				// use NAME: tag tag ...  -- at calls of NAME assume only the named postconditions
+				// of its contract (assuming fewer facts is always sound; keeps queries small)
+				i := strings.Index(rest, ":")
+				if i < 0 {
+					return fail(fmt.Errorf("use NAME: tag ..."))
+				}
+				if cur.Use == nil {
+					cur.Use = map[string][]string{}
+				}
+				nm := strings.TrimSpace(rest[:i])
+				cur.Use[nm] = append(cur.Use[nm], strings.Fields(rest[i+1:])...)
 			case "note":
 				cur.Notes = append(cur.Notes, rest)
 			default:
